@@ -110,6 +110,8 @@ func (o op) String() string {
 		s = "time passes the wait timeout"
 	case "config":
 		s = "UpdateConfig(" + o.arg + ")"
+	case "merge":
+		s = fmt.Sprintf("region %d absorbs the region after it", o.id)
 	}
 	if o.fault != "" {
 		s += " [" + o.fault + " fails]"
@@ -138,6 +140,9 @@ type model struct {
 	scanMark int
 	start    string // initial persisted state ("" = first initialisation -> sync)
 	pr, dr   int    // replicas per datacenter (0: 2 / 1)
+	merges   bool
+	scanAbs  string // with merges: the regions and reports the last recovery scan saw (hidden cursor and counters)
+	absorbed map[int]bool // region index -> merged into the region before it
 }
 
 var stores = map[uint64]string{1: "dc1", 2: "dc1", 3: "dc1", 4: "dc2", 5: "dc2", 6: "dc3"} // store 6 belongs to neither datacenter
@@ -191,7 +196,26 @@ func newModel(nregions, gapAt, batch int, faults, configs bool) *model {
 
 func (m *model) NumOps() int         { return len(m.ops) }
 func (m *model) OpName(i int) string { return m.ops[i].String() }
-func (m *model) Enabled(i int) bool  { return true }
+func (m *model) Enabled(i int) bool {
+	if o := m.ops[i]; o.kind == "merge" {
+		// at most one merge per region
+		return !m.absorbed[int(o.id)] && !m.absorbed[int(o.id)+1] && !m.absorbed[int(o.id)+2] && int(o.id)+1 < m.nregions
+	} else if o.kind == "report" {
+		return !m.absorbed[int(o.id)]
+	}
+	return true
+}
+
+// withMerges adds the merge of every pair of neighbouring regions (each region takes part in at most one).
+func withMerges(m *model) *model {
+	m.merges = true
+	for r := 0; r+1 < m.nregions; r++ {
+		if r != m.gapAt && r+1 != m.gapAt {
+			m.ops = append(m.ops, op{kind: "merge", id: uint64(r)})
+		}
+	}
+	return m
+}
 
 func key(i int) []byte {
 	if i <= 0 {
@@ -210,6 +234,9 @@ func (m *model) regionKeys(r int) ([]byte, []byte) {
 
 func (m *model) putRegion(r int, st *pb.RegionReplicationStatus) {
 	s, e := m.regionKeys(r)
+	for n := r + 1; m.absorbed[n]; n++ {
+		_, e = m.regionKeys(n)
+	}
 	id := uint64(r + 1)
 	meta := &metapb.Region{Id: id, StartKey: s, EndKey: e, RegionEpoch: &metapb.RegionEpoch{Version: 1, ConfVer: 1},
 		Peers: []*metapb.Peer{{Id: id*10 + 1, StoreId: 1}, {Id: id*10 + 2, StoreId: 2}, {Id: id*10 + 4, StoreId: 4}}}
@@ -236,6 +263,7 @@ func (m *model) Reset() {
 	for id, dc := range stores {
 		m.cl.AddLabelsStore(id, 1, map[string]string{"zone": dc, "zone2": dc})
 	}
+	m.absorbed = map[int]bool{}
 	for r := 0; r < m.nregions; r++ {
 		if r != m.gapAt {
 			m.putRegion(r, nil)
@@ -254,7 +282,7 @@ func (m *model) Reset() {
 	m.reported = map[uint64]bool{}
 	m.down = map[uint64]bool{}
 	m.timedOut = false
-	m.scanMark = 0
+	m.scanMark, m.scanAbs = 0, ""
 	s := m.mm.GetReplicationStatus()
 	want := pb.DRAutoSyncState_SYNC
 	if m.start != "" {
@@ -293,12 +321,16 @@ func (m *model) Key() string {
 		if r == m.gapAt || (m.nregions > 100 && r != 0 && r != 1025 && r != m.nregions-1) {
 			continue
 		}
+		if m.absorbed[r] {
+			rs = append(rs, "-")
+			continue
+		}
 		reg := m.cl.GetRegion(uint64(r + 1))
 		cur := reg.GetReplicationStatus().GetStateId() == m.served().id
 		rs = append(rs, fmt.Sprintf("%v/%v/%v", reg.GetReplicationStatus().GetState(), cur, m.reported[uint64(r)]))
 	}
 	h := m.mm.GetReplicationStatusHTTP()
-	return fmt.Sprintf("%d|%v|%v|%v|%v|%s|%d/%d", m.scanMark, m.served().mode, m.served().state, d, m.timedOut, strings.Join(rs, ","), h.DrAutoSync.SyncedRegions, h.DrAutoSync.TotalRegions) + m.conf.DRAutoSync.LabelKey
+	return fmt.Sprintf("%d%s|%v|%v|%v|%v|%s|%d/%d", m.scanMark, m.scanAbs, m.served().mode, m.served().state, d, m.timedOut, strings.Join(rs, ","), h.DrAutoSync.SyncedRegions, h.DrAutoSync.TotalRegions) + m.conf.DRAutoSync.LabelKey
 }
 
 func (m *model) failCounts() (p, d int) {
@@ -366,6 +398,20 @@ func (m *model) Apply(i int) *hist.Violation {
 		}
 		m.mm.VerifTickDR()
 		m.timedOut = true
+	case "merge":
+		// the surviving region covers both ranges; it counts as having reported integrity only if both had
+		a, b := int(o.id), int(o.id)+1
+		st := m.cl.GetRegion(uint64(a + 1)).GetReplicationStatus()
+		if !m.reported[uint64(b)] {
+			st = m.cl.GetRegion(uint64(b + 1)).GetReplicationStatus()
+			delete(m.reported, uint64(a))
+		}
+		delete(m.reported, uint64(b))
+		m.absorbed[b] = true
+		m.putRegion(a, st)
+		if m.cl.GetRegion(uint64(b+1)) != nil {
+			panic("the absorbed region is still cached")
+		}
 	case "reportmany":
 		for r := 0; r < m.nregions; r++ {
 			if (o.arg == "all-but-last" && r == m.nregions-1) || (o.arg == "all-but-1025" && r == 1025) {
@@ -389,6 +435,7 @@ func (m *model) Apply(i int) *hist.Violation {
 	case "tick":
 		if before.mode == "dr-auto-sync" && before.state == pb.DRAutoSyncState_SYNC_RECOVER {
 			m.scanMark = len(m.reported) + 1
+			m.scanAbs = fmt.Sprint(m.absorbed, m.reported)
 		}
 		m.mm.VerifTickDR()
 	case "config":
@@ -521,7 +568,7 @@ func (m *model) applyChecked(i int) *hist.Violation {
 			return &hist.Violation{Key: "sync-not-from-sync-recover", Msg: fmt.Sprintf("after %s: moved %v -> sync", o, before.state)}
 		}
 		for r := 0; r < m.nregions; r++ {
-			if r != m.gapAt && !reported[uint64(r)] {
+			if r != m.gapAt && !m.absorbed[r] && !reported[uint64(r)] {
 				return &hist.Violation{Key: "sync-before-all-regions-reported", Msg: fmt.Sprintf("after %s: declared sync although region %d has not reported integrity under the current state id %d (reported: %v)", o, r, before.id, reported)}
 			}
 		}
@@ -547,6 +594,7 @@ func main() {
 			{Name: "2regions+faults/from-sync-recover", Tiers: "quick", Depth: 5, NewModel: func() hist.Model { return wrap{from(newModel(2, -1, 1024, true, false), "sync_recover")} }},
 			{Name: "3regions/replicas2+2", Tiers: "quick", Depth: 5, NewModel: func() hist.Model { m := newModel(3, -1, 2, false, false); m.pr, m.dr = 2, 2; return wrap{m} }},
 			{Name: "3regions+gap-at-start/from-sync-recover", Tiers: "quick", Depth: 5, NewModel: func() hist.Model { return wrap{from(newModel(3, 0, 2, false, false), "sync_recover")} }},
+			{Name: "3regions+merges/from-sync-recover", Tiers: "quick", Depth: 7, NewModel: func() hist.Model { return wrap{withMerges(onlyGoodReports(from(newModel(3, -1, 2, false, false), "sync_recover")))} }},
 			{Name: "3regions+gap", Tiers: "quick", Depth: 5, NewModel: func() hist.Model { return wrap{newModel(3, 1, 2, false, false)} }},
 			{Name: "2regions+faults+config", Tiers: "quick", Depth: 4, NewModel: func() hist.Model { return wrap{newModel(2, -1, 1024, true, true)} }},
 			{Name: "5regions/batch3/from-sync-recover", Tiers: "quick", Depth: 8, NewModel: func() hist.Model { return wrap{from(newModel5(), "sync_recover")} }},
@@ -554,6 +602,8 @@ func main() {
 			{Name: "4regions+gap@8", Tiers: "thorough", Depth: 8, NewModel: func() hist.Model { return wrap{newModel(4, 2, 3, false, false)} }},
 			{Name: "3regions+faults+config@6", Tiers: "thorough", Depth: 6, NewModel: func() hist.Model { return wrap{newModel(3, -1, 2, true, true)} }},
 			{Name: "1030regions/from-sync-recover", Tiers: "thorough", Depth: 5, NewModel: func() hist.Model { return wrap{from(newModelBig(), "sync_recover")} }},
+			{Name: "4regions+merges/from-sync-recover@9", Tiers: "thorough", Depth: 9, NewModel: func() hist.Model { return wrap{withMerges(onlyGoodReports(from(newModel(4, -1, 2, false, false), "sync_recover")))} }},
+			{Name: "3regions+merges/all-events/from-sync-recover@6", Tiers: "thorough", Depth: 6, NewModel: func() hist.Model { return wrap{withMerges(from(newModel(3, -1, 2, false, false), "sync_recover"))} }},
 			{Name: "4regions/from-async@8", Tiers: "thorough", Depth: 8, NewModel: func() hist.Model { return wrap{from(newModel(4, -1, 3, false, false), "async")} }},
 			{Name: "3regions+faults+config/from-sync-recover@6", Tiers: "thorough", Depth: 6, NewModel: func() hist.Model { return wrap{from(newModel(3, -1, 2, true, true), "sync_recover")} }},
 		},
